@@ -80,6 +80,7 @@ def resolve(name, seed, edit):
         EDITS[edit](pep, h)
         t3 = solve(pep)
         w3 = spy.wrappers[-1]
+        check_sent(pep, w3, fails)
         info['taus'] = (t1, t2, t3)
         # a fresh equivalent model
         pep_f, h_f = models.build(name, seed)
@@ -299,13 +300,16 @@ def invalid_options(seed):
 
 
 # ------------------------------------------------------------------------------------------------ C17
-def dual_tables(name, seed):
+def dual_tables(name, seed, resolve=False):
     from PEPit.constraint import Constraint
     fails = []
     spy = Spy().install()
     try:
         pep, h = models.build(name, seed)
         solve(pep)
+        if resolve:
+            EDITS['add_metric'](pep, h)
+            solve(pep)
         for f in h['funcs']:
             if not f.get_is_leaf():
                 continue
@@ -541,3 +545,114 @@ def mosek_no_value(seed):
     if t is not None:
         fails.append(('C11', 'none_if_unsolved', '%s model through the MOSEK wrapper: solve returned %r instead of no value' % (h['kind'], t)))
     return {'template': 'T_unbounded', 'seed': seed, 'kind': h['kind']}, fails
+
+
+def partition_resolve(seed):
+    """solve, decompose one more point with the same partition, solve again: the relations of ALL decomposed points are imposed"""
+    fails = []
+    spy = Spy().install()
+    try:
+        pep, h = models.build('T_blocks', seed)
+        part = h['partitions'][0]
+        d = part.get_nb_blocks()
+        t1 = solve(pep)
+        x0, x1 = h['points'][0], h['points'][1]
+        newpt = x0 - 2 * x1
+        blocks = [part.get_block(newpt, k) for k in range(d)]
+        pep.set_performance_metric(pep.list_of_performance_metrics[0] + 0.25 * (blocks[0] * blocks[d - 1]))
+        t2 = solve(pep)
+        w = spy.wrappers[-1]
+        m = len(part.blocks_dict)
+        want = m * m * d * (d - 1) // 2
+        sent = [o for k, o in w.sent if k == 'scalar' and any(o is c for c in part.list_of_constraints)]
+        if len(sent) != want:
+            fails.append(('C15', 'orthogonality.at_solve', '%d orthogonality relations reach the solver for %d decomposed points and %d blocks, %d required' % (len(sent), m, d, want)))
+        pep_f, h_f = models.build('T_blocks', seed)
+        part_f = h_f['partitions'][0]
+        x0f, x1f = h_f['points'][0], h_f['points'][1]
+        bf = [part_f.get_block(x0f - 2 * x1f, k) for k in range(d)]
+        pep_f.set_performance_metric(pep_f.list_of_performance_metrics[0] + 0.25 * (bf[0] * bf[d - 1]))
+        tf = solve(pep_f)
+        if abs(tf - t2) > 50 * tol(tf):
+            fails.append(('C15', 'orthogonality.value', 're-solve after decomposing a new point returns %.8g, a fresh model %.8g' % (t2, tf)))
+    finally:
+        spy.remove()
+    return {'template': 'T_blocks', 'seed': seed, 'scenario': 'partition-resolve'}, fails
+
+
+def partition_dropped_handle(seed):
+    """a combination is decomposed through a temporary handle that the user drops before solving"""
+    import gc
+    from PEPit import PEP
+    from PEPit.functions import BlockSmoothConvexFunction
+    fails = []
+    spy = Spy().install()
+    try:
+        p = PEP()
+        d = 2 + seed % 2
+        part = p.declare_block_partition(d=d)
+        f = p.declare_function(BlockSmoothConvexFunction, L=[1.0] * d, partition=part)
+        xs = f.stationary_point()
+        x0 = p.set_initial_point()
+        p.set_initial_condition((x0 - xs) ** 2 <= 1)
+        g = f.gradient(x0)
+        b0 = part.get_block(x0 - xs, 0)               # the combination x0 - xs is a temporary: no handle kept
+        gl = part.get_block(g, d - 1)
+        p.set_performance_metric(b0 * gl)
+        gc.collect()
+        try:
+            t = solve(p)
+        except Exception as e:
+            if type(e).__name__ != 'SolverError':
+                raise
+            t = 'solver-error'
+        w = spy.wrappers[-1]
+        sent = [o for k, o in w.sent if k == 'scalar' and any(o is c for c in part.list_of_constraints)]
+        m = 3          # x0 - xs and g (decomposed by the user), and the null gradient of the stationary point (decomposed by the class)
+        want_min = m * m * d * (d - 1) // 2
+        if len(sent) < want_min:
+            fails.append(('C15', 'orthogonality.at_solve', '%d orthogonality relations reach the solver, at least %d required (a decomposed combination was forgotten)' % (len(sent), want_min)))
+        if t != 'solver-error' and (t is None or abs(t) > 1e-4):
+            fails.append(('C15', 'orthogonality.value', '<P_0(x0 - xs), P_last(g)> has worst case %r, different blocks are orthogonal (0)' % (t,)))
+    finally:
+        spy.remove()
+    return {'seed': seed, 'scenario': 'partition-dropped-handle'}, fails
+
+
+def fresh_process(name, seed, fragment):
+    """C12: the same program in fresh interpreters, once alone and once after a history that precedes the very first PEP()"""
+    import subprocess, sys, os, json
+    here = os.path.dirname(os.path.dirname(os.path.abspath(__file__)))
+    code = """
+import sys, json, warnings
+warnings.filterwarnings('ignore')
+sys.path.insert(0, %r)
+frag = %r
+if frag == 'objects':
+    from PEPit.point import Point
+    from PEPit.expression import Expression
+    from PEPit.functions import SmoothConvexFunction
+    from PEPit.block_partition import BlockPartition
+    a, b = Point(), Point(); e = Expression(); g = SmoothConvexFunction(L=2.); g.gradient(a); q = BlockPartition(d=2); q.get_block(b, 0)
+elif frag == 'model':
+    from harness import models, scenarios
+    scenarios.run_once('T_quadratic', 3)
+from harness import scenarios
+t, fp = scenarios.run_once(%r, %r)
+print(json.dumps({'t': t, 'fp': fp}))
+""" % (here, fragment, name, seed)
+    fails = []
+    outs = []
+    for frag in ('none', fragment):
+        c = code.replace("frag = %r" % fragment, "frag = %r" % frag)
+        env = dict(os.environ)
+        r = subprocess.run([sys.executable, '-W', 'ignore', '-c', c], capture_output=True, text=True, env=env, timeout=300)
+        line = [l for l in r.stdout.splitlines() if l.startswith('{')]
+        if not line:
+            raise RuntimeError('fresh process failed: ' + r.stderr[-400:])
+        outs.append(json.loads(line[-1]))
+    if outs[0]['fp'] != outs[1]['fp']:
+        fails.append(('C12', 'same_solver_input.fresh_process', 'solver input of the model differs when objects were created before the first PEP() of the process (%s vs %s constraints sent)' % (outs[1]['fp'][1], outs[0]['fp'][1])))
+    if (outs[0]['t'] is None) != (outs[1]['t'] is None) or (outs[0]['t'] is not None and abs(outs[0]['t'] - outs[1]['t']) > 1e-9):
+        fails.append(('C12', 'same_result.fresh_process', 'value %r after the history, %r in a fresh interpreter' % (outs[1]['t'], outs[0]['t'])))
+    return {'template': name, 'seed': seed, 'fragment': fragment}, fails
